@@ -23,6 +23,8 @@ ASSUMPTIONS = [
 ]
 
 RELAXED = {"?": 12}
+RINGSYM = [("", ""), ("/", ""), ("\\", ""), ("", "/"), ("", "\\"), ("/", "/"), ("\\", "\\"), ("/", "\\"), ("\\", "/"), ("=", ""),
+           ("", "="), ("=", "="), ("#", ""), ("#", "#"), ("-", ""), ("", "-"), ("-", "-")]
 TIGHT = {"C": 4, "N": 2, "Fe": 1, "H": 1, "Cl": 0, "?": 3}
 ISO = ["", "0", "13", "235"]
 ELEM = ["C", "N", "Fe", "H", "Cl", "B", "O", "S", "P", "F", "Br", "I"]
@@ -67,6 +69,12 @@ def plan(tier, seed):
         for pi, _ in enumerate(E2.parent_vectors(n)):
             for first in range(len(ATOM_PAL)):
                 tasks.append(("bonds+atoms", ("ba", n, pi, first)))
+    nr = 5 if thorough else 4
+    scopes.append({"name": "ring-bond-symbols", "n_max": nr, "ring_symbols(open,close)": RINGSYM, "edge_symbols": ["", "=", "/", "\\"],
+                   "desc": "one ring bond carrying every combination of bond / stereo symbols on its two digits", "table": RELAXED})
+    for n in range(3, nr + 1):
+        for pi, _ in enumerate(E2.parent_vectors(n)):
+            tasks.append(("ring-bond-symbols", ("ringsym", n, pi)))
     scopes.append({"name": "atom-grid", "isotopes": ISO, "elements": ELEM, "chirality": CHIR, "H": HS, "charges": CHG,
                    "contexts": ["X", "CX", "X=C", "C(X)C", "C1XC1", "CC.X", "X.X"],
                    "tables": [RELAXED, "default", "octet_rule", TIGHT]})
@@ -172,6 +180,16 @@ def run(task):
             for ds, pl in E2.lenient_variants(n, par, rings):
                 smi = E2.write(n, par, rings, at, bt, digit_slot=ds, paren_last=pl)
                 last = (smi, check(smi, RELAXED, r))
+    elif kind == "ringsym":
+        _, n, pi = arg
+        par = list(E2.parent_vectors(n))[pi]
+        at = ["C"] * n
+        for rings in E2.ring_sets(n, par, 1, 1):
+            r.states += 1
+            for rs in RINGSYM:
+                for bts in itertools.product(["", "=", "/", "\\"], repeat=n - 1):
+                    smi = E2.write(n, par, rings, at, [""] + list(bts), ring_tok={rings[0]: rs})
+                    last = (smi, check(smi, RELAXED, r))
     elif kind == "ba":
         _, n, pi, first = arg
         par = list(E2.parent_vectors(n))[pi]
